@@ -75,7 +75,7 @@ add("C06", "fault_enumeration", "svmc-E1",
 
 add("C08", "exploration", "svmc-E1",
     "bounded-exhaustive enumeration of well-formed index maps x query grids against independent flatten / section-lookup models",
-    "Every index map with 1..3/4 sections over 6 offsets x a 9-map pool (empty, multi-line, duplicate positions, shared source names with/without contents, ignore-listed source, range tokens, root-prefixed), one slot optionally a nested index / Hermes map / url-only, built by constructor and by decoding; flatten() is compared with RFlatten, index.lookup_token with RIndexLookup on a grid around every offset, and whenever the index finds a token the flattened map must report the same original location.",
+    "Every index map with 1..3/4 sections over 6 offsets x a 10-map pool (empty, multi-line, duplicate positions, shared source names with/without contents, ignore-listed source, range tokens, root-prefixed), one slot optionally a nested index / Hermes map / url-only, built by constructor and by decoding; flatten() is compared with RFlatten, index.lookup_token with RIndexLookup on a grid around every offset, and whenever the index finds a token the flattened map must report the same original location.",
     "Ties at one position: any member accepted; flattened sources compared by name.",
     "DESIGN.md 4/C08")
 add("C09", "exploration", "svmc-E1",
